@@ -206,6 +206,22 @@ func genC19Filters(e *emitter, tier string) {
 		set := fieldpath.NewSet(s...)
 		res := guard(func() string { return sexpSet(fieldpath.NewIncludeMatcherFilter(ms...).Filter(set)) })
 		e.line(fmt.Sprintf("(c19.include %s %s %s)", sb.String(), sexpPaths(s), res))
+		// pattern values are built once and shared between filters by callers: a filter
+		// made from the FIRST of the same values alone must keep what that pattern keeps
+		if len(ms) >= 2 {
+			var one strings.Builder
+			one.WriteString("(pats (pat")
+			for _, x := range pats[0] {
+				if x == "*" {
+					one.WriteString(" *")
+				} else {
+					one.WriteString(" (F " + quote(x) + ")")
+				}
+			}
+			one.WriteString("))")
+			res1 := guard(func() string { return sexpSet(fieldpath.NewIncludeMatcherFilter(ms[0]).Filter(set)) })
+			e.line(fmt.Sprintf("(c19.include %s %s %s)", one.String(), sexpPaths(s), res1))
+		}
 		// exclusion filter = recursive difference
 		var ex []fieldpath.Path
 		for _, p := range full {
